@@ -14,11 +14,24 @@ import (
 	"github.com/kstenerud/go-concise-encoding/internal/verifrt"
 )
 
-func c02Compile(expr string) (*regexp.Regexp, error) { return nil, nil }
+// The contract stubs stand in only while a reader-lemma entry runs; everywhere
+// else (the whole-document round trips in roundtrip.go) they pass through to
+// the real regexp / ParseFloat.
+var c02Contract bool
+
+func c02Compile(expr string) (*regexp.Regexp, error) {
+	if !c02Contract {
+		return regexp.Compile(expr)
+	}
+	return nil, nil
+}
 
 // Stands for `(-?\d+(\.\d+)?)/(-?\d+(\.\d+)?)$` on "lat/long": groups 1 and 3
 // are the two number texts.
 func c02Find(re *regexp.Regexp, s string, n int) [][]string {
+	if !c02Contract {
+		return re.FindAllStringSubmatch(s, n)
+	}
 	slash := -1
 	for i := 0; i < len(s); i++ {
 		if s[i] == '/' {
@@ -35,6 +48,9 @@ func c02Find(re *regexp.Regexp, s string, n int) [][]string {
 // decimal value; for at most 15 significant digits that is integer / 10^k
 // (both exact doubles, one correctly rounded division).
 func c02ParseCoord(str string) float64 {
+	if !c02Contract {
+		return parseCoord(str)
+	}
 	neg := false
 	i := 0
 	if len(str) > 0 && str[0] == '-' {
@@ -88,6 +104,7 @@ func c02Run(lat, long int) {
 		slash++
 	}
 	verifrt.Assert(slash < len(text), "the time text carries a time zone suffix")
+	c02Contract = verifrt.Symbolic()
 	tz := parseTimezone(text[slash:])
 	verifrt.Reach("parsed")
 	verifrt.Known("KF-C02-latlong-truncated", verifrt.Or(int(tz.LatitudeHundredths) != lat, int(tz.LongitudeHundredths) != long))
